@@ -575,6 +575,8 @@ def gates(m, tier):
     if f.get('omitted_section_carts', 0) < 15 or any(f.get('omitted_' + n, 0) < 3 for n, _ in rc.REGIONS):
         missed.append('carts from files with omitted sections: %d (%s)' % (
             f.get('omitted_section_carts', 0), {n: f.get('omitted_' + n, 0) for n, _ in rc.REGIONS}))
+    if f.get('file_with_meta_title_section', 0) < 10 or f.get('meta_section_not_last', 0) < 2:
+        missed.append('files with a __meta:title__ section: %d (not last: %d)' % (f.get('file_with_meta_title_section', 0), f.get('meta_section_not_last', 0)))
     if f.get('p8_label', 0) < 5 or f.get('p8_nolabel', 0) < 5 or f.get('p8_black_label', 0) < 3:
         missed.append('label present/absent under-sampled')
     return missed
